@@ -79,7 +79,9 @@ def main():
             "source_commits": [],
             "add_only": True,
         },
-        "engines": [{"name": e, "path": ENG[e][0], "serves_properties": sorted(ps), "kind_free_text": ENG[e][1]} for e, ps in engines.items()],
+        "engines": [{"name": e, "path": ENG[e][0], "serves_properties": sorted(ps), "kind_free_text": ENG[e][1]} for e, ps in engines.items()]
+        + [{"name": "fuzz", "path": "fuzz/", "serves_properties": ["C03", "C05", "C11", "C15"], "kind_free_text": ENG["fuzz"][1] + " (tools/fuzz_tier.py, called by run.sh)"},
+           {"name": "fdriver", "path": "fdriver/", "serves_properties": ["C19"], "kind_free_text": "driver crate compiled once per cargo feature set and kept running as a line-protocol server (used by vcheck C19)"}],
         "checks": checks,
         "not_applicable": na,
         "notes": "see DESIGN.md; KNOWN_FINDINGS.json lists recorded (open) and repaired (fixed) defects; seeded/ holds confirmed breaking changes used to test sensitivity",
